@@ -32,9 +32,12 @@ def run(tier, runner):
     from ..rules import seglayout
     r_seg = seglayout.seg_layout(sw)
     r_seg.require(2, 'swap_deep instantiations (size type pairs)')
+    from ..rules import objlayout
+    r_s2 = objlayout.swap2_layout(sw)
+    r_s2.require(2, 'swap2_impl instantiations between two SmallVectors')
     return {
-        'results': [r_w, r_tf, r_tr, r_cd, r_st, r_sr, r_eo, r_es, r_xa, r_tt, r_sw, r_seg],
-        'explanation': 'SEG-LAYOUT (helper contract): swap_deep, the element exchange every non-buffer swap goes through, leaves - for every pair of counts and every pair of size types instantiated - exactly the count2 elements of the second range in the first and the count1 elements of the first in the second, in order, nothing else alive (two storages in one index space, array-segmentation interpretation).  SWAP-WHO: the same-N exchange swap_impl is only reachable with operands whose static type carries N.  THROW-TYPE: swap_sizetype throws overflow_error exactly when a size exceeds the maximum of the other size type (strict comparison with the folded maximum), the fixed-capacity check out_of_range exactly when the request exceeds N.  XALLOC: the buffer-exchange branch is only live for operands of the same allocator type and size_type - for every other instantiated (receiver, operand) pair canSwapDynStorage folds to the constant false.  For every ordered pair of flavours / inline capacities / size types / allocators of the matrix (swap2_impl instantiations): '
+        'results': [r_w, r_tf, r_tr, r_cd, r_st, r_sr, r_eo, r_es, r_xa, r_tt, r_sw, r_seg, r_s2],
+        'explanation': 'SWAP2-LAYOUT: swap2_impl between two SmallVectors (different inline capacities, size types, allocators as instantiated) is interpreted with two objects for each feasible pair of states after the mutual capacity adjustment: each vector - decoded from its own words and union - ends with the size and the elements of the other in order, with a valid inline encoding (full marker exactly when size == its N) or a block whose capacity its `_capa` holds; nothing else is alive; every heap block has exactly one owner.  SEG-LAYOUT (helper contract): swap_deep, the element exchange every non-buffer swap goes through, leaves - for every pair of counts and every pair of size types instantiated - exactly the count2 elements of the second range in the first and the count1 elements of the first in the second, in order, nothing else alive (two storages in one index space, array-segmentation interpretation).  SWAP-WHO: the same-N exchange swap_impl is only reachable with operands whose static type carries N.  THROW-TYPE: swap_sizetype throws overflow_error exactly when a size exceeds the maximum of the other size type (strict comparison with the folded maximum), the fixed-capacity check out_of_range exactly when the request exceeds N.  XALLOC: the buffer-exchange branch is only live for operands of the same allocator type and size_type - for every other instantiated (receiver, operand) pair canSwapDynStorage folds to the constant false.  For every ordered pair of flavours / inline capacities / size types / allocators of the matrix (swap2_impl instantiations): '
                        'ENC-W - sizes are exchanged only through the encoders or jointly with the capacity; THROW-FIRST - every call that may throw '
                        '(size_type overflow test, capacity adjustment) is sequenced before the first modification of either operand, so an impossible '
                        'exchange throws with both contents intact; THROW-REACH - no noexcept function on the swap2 path can reach a throw (it throws '
